@@ -12,11 +12,18 @@ RULE = ("correspondence: random walks (use/elapse/stop/trigger/reset) from defau
 
 def known_match(entry, f):
     m = entry.get("match", {})
+    if entry.get("id") == "C07-raw-action-listeners":
+        # identified by the listening keys: (listener component, raw action key) pairs of the reviewed list
+        return (f.get("mechanism") == "raw-action-listener"
+                and [f.get("component"), f.get("listened_key")] in m.get("listeners", []))
     return f["component"] == m.get("component") and f["reducer"] == m.get("reducer") and "changed the state" in f["what"]
 
 
 def witness_replay(entry):
-    """StackableBuffSkillComponent.use on a skill that is cooling down."""
+    """StackableBuffSkillComponent.use on a skill that is cooling down (or the recorded witness of another entry)."""
+    if entry.get("id") == "C07-raw-action-listeners":
+        from lib import h_dispatch
+        return h_dispatch.replay_raw_listener_witness()
     from simaple.core.base import ActionStat, Stat
     from simaple.simulate.component.common.stackable_buff_skill import StackableBuffSkillComponent, StackableBuffSkillState
     from simaple.simulate.component.entity import Cooldown, Lasting, Stack
